@@ -194,6 +194,35 @@ func allOnce[T any](xs []T, f func(T) bool) bool {
 	return len(xs) > 0
 }
 
+// GO-LATE-REGISTRATION: inside a detached goroutine the subscribe call may not return before the source ends.
+func ruleGoLateRegistration() check.Rule {
+	return check.Rule{
+		Name: "GO-LATE-REGISTRATION",
+		Doc:  "in a goroutine started by a subscribe closure (the closure has already returned its teardown), no release closure is registered with Add on a subscription after an upstream subscribe call of the same function: a synchronous source keeps that call from returning until it ends, so an unsubscription that arrives meanwhile finds nothing registered and the release (closing the hand-off channel) never happens",
+		Run: func(c *check.Ctx) {
+			m := c.M
+			n := 0
+			for _, sc := range m.SCs {
+				armed := c.Armed(sc)
+				for _, op := range sc.SubOps {
+					if op.Method != "Add" || op.Call == nil || op.Ctx == nil || op.Ctx.Kind != model.KGo {
+						continue
+					}
+					fn := innermostFunc(m, op.Pkg, op.Call)
+					for _, s := range sc.SubSites {
+						if s.Ctx != op.Ctx || innermostFunc(m, s.Pkg, s.Call) != fn || s.Pos > op.Pos {
+							continue
+						}
+						n++
+						c.Report(armed, fmt.Sprintf("%s/go/late-registration#%d", sc, n), op.Pos, "a release is registered with Add only after the upstream was subscribed at %s in the same goroutine: with a synchronous source that call returns when the source has ended, so an earlier unsubscription releases nothing", c.Prog.Rel(s.Pos))
+					}
+				}
+			}
+			c.Inc("go_late_registrations", n)
+		},
+	}
+}
+
 // SEND-RECOVERED
 func ruleSendRecovered() check.Rule {
 	return check.Rule{
@@ -592,7 +621,7 @@ func C17() *check.Property {
 		Title:    "Bridges to slices, maps and channels are exact and close exactly once",
 		Patterns: CorePatterns,
 		Scope:    []string{ro},
-		Rules:    []check.Rule{ruleCloseOnce(), ruleSendRecovered(), ruleBoundedQueue(), ruleSinkOnComplete(), ruleFromChannel(), ruleMaterializeTable(), ruleCollectWaits(), ruleStateLevel(), ruleTerminalPropagation(), ruleDeadEmission(), ruleLateEmission()},
+		Rules:    []check.Rule{ruleCloseOnce(), ruleSendRecovered(), ruleBoundedQueue(), ruleSinkOnComplete(), ruleFromChannel(), ruleMaterializeTable(), ruleCollectWaits(), ruleStateLevel(), ruleTerminalPropagation(), ruleDeadEmission(), ruleLateEmission(), ruleGoLateRegistration(), ruleCtxDoneTerminates()},
 		Explanation: "Static typestate/table checks of the bridges. CLOSE-ONCE: each channel created by an operator is closed either from a single teardown-only site or exclusively inside one sync.Once.Do; SEND-RECOVERED: sends on a channel the operator also closes " +
 			"happen only inside observer slots, where a send-on-closed panic is recovered; BOUNDED-QUEUE: ToChannel/detachOn queue all three notification kinds, terminal ones before the close, and the teardown closes too; SINK-ON-COMPLETE: ToSlice/ToMap emit once, at completion, " +
 			"the container their next slot fills (keyed store: last write wins); FROM-CHANNEL: two-value receive, complete-and-return on close, stop channel; MATERIALIZE-TABLE: the notification constructors, the writers (Materialize, ToChannel, detachOn) and the readers " +
